@@ -54,7 +54,7 @@ def events(r, groups):
             continue
         ev.append({"ev": "ccall", "case": r["case"], "plen": c["plen"], "n": c["n"], "err": c["err"], "st": c["st"],
                    "ovLen": c["ovLen"], "ovPos": c["ovPos"]})
-    ev.append({"ev": "cend", "case": r["case"], "total": r["outLen"]})
+    ev.append({"ev": "cend", "case": r["case"], "total": r["outLen"], "poison": r.get("poison") or []})
     return ev
 
 
